@@ -1,8 +1,8 @@
 import WcModel.Generated
 /-
-  Executable model of `wcmatch.wcmatch.WcMatch` (wcmatch/wcmatch.py:68-314): `os.walk` top-down
+  Executable model of `wcmatch.wcmatch.WcMatch` (wcmatch/wcmatch.py:68-318): `os.walk` top-down
   with in-place pruning, `_valid_folder`, `_valid_file`, the hidden test, the flags
-  RECURSIVE / HIDDEN / SYMLINKS / FILEPATHNAME / DIRPATHNAME, the three `is_aborted()` poll sites,
+  RECURSIVE / HIDDEN / SYMLINKS / FILEPATHNAME / DIRPATHNAME, the four `is_aborted()` poll sites,
   the `on_*` hooks, the skipped counter and the object-level operations
   `match / imatch+next / kill / reset / is_aborted / get_skipped`.
 
@@ -75,8 +75,11 @@ def Tree.WF : Tree → Prop
 inductive Res (α : Type) | ret (v : α) | raise
   deriving DecidableEq, Repr
 
-/-- the three `is_aborted()` poll sites of `_walk` (wcmatch.py:263, 277, 300) -/
-inductive Site | top | folder | file
+/-- the four `is_aborted()` poll sites of `_walk` (wcmatch.py:263, 277, 281, 304): at the top of a
+    directory, after each validated folder, AFTER THE FOLDER LOOP (`mid`, added by the repair of D20:
+    an abort seen while validating folders ends the walk before the files of that directory are
+    looked at), after each file -/
+inductive Site | top | folder | mid | file
   deriving DecidableEq, Repr
 
 /-- observable events of one run, in program order -/
@@ -100,7 +103,7 @@ structure Ctr where
   skipped : Nat := 0
   deriving DecidableEq, Repr
 
-/-- The abort flag is *read* only at the three poll sites and *written* only by `kill`/`reset`, so
+/-- The abort flag is *read* only at the four poll sites and *written* only by `kill`/`reset`, so
     every interleaving — a hook, the consumer between two `next`s, another thread — is represented
     by the values the polls observe.  `o c` is the answer of the poll issued at clock `c`.
     (`fun c => c.polls ≥ k`: abort from the k-th poll on;  `fun c => c.hooks ≥ k`: `kill()` called
@@ -178,7 +181,7 @@ def dirStep {V} (cfg : Cfg) (hk : Hooks V) (rel : RelPath) (n : Name) : List (Ev
   | (e, .ret keep) => (e, keep)
   | (e, .raise) => (e ++ .herror (rel ++ [n]) :: yieldOpt (hk.onError (rel ++ [n])), false)
 
-/-- body of the file loop for one name, without the poll (wcmatch.py:284-298) -/
+/-- body of the file loop for one name, without the poll (wcmatch.py:288-302) -/
 def fileStep {V} (cfg : Cfg) (hk : Hooks V) (rel : RelPath) (n : Name) : List (Ev V) :=
   let p := rel ++ [n]
   match validFile cfg hk rel n with
@@ -200,7 +203,7 @@ def dirLoop {V} (o : Oracle) (cfg : Cfg) (hk : Hooks V) (rel : RelPath) :
       let r := dirLoop o cfg hk rel ns (c1.tick (.poll .folder false : Ev V))
       (s.1 ++ .poll .folder false :: r.1, kept0 ++ r.2)
 
-/-- the file loop (wcmatch.py:283-301) -/
+/-- the file loop (wcmatch.py:287-305) -/
 def fileLoop {V} (o : Oracle) (cfg : Cfg) (hk : Hooks V) (rel : RelPath) :
     List Name → Ctr → List (Ev V)
   | [], _ => []
@@ -212,12 +215,14 @@ def fileLoop {V} (o : Oracle) (cfg : Cfg) (hk : Hooks V) (rel : RelPath) :
 
 structure Run (V : Type) where
   evs : List (Ev V)
-  /-- the `for … in os.walk(…)` loop was left by the `break` of poll site 1 -/
+  /-- the `for … in os.walk(…)` loop was left by a `break` of its own body: poll site `top` or poll
+      site `mid` (the `break`s of the folder and file sites only leave the inner loops) -/
   stop : Bool
   deriving Repr
 
-/-- one iteration of `for base, dirs, files in os.walk(…)` for the directory `rel` with entries `t`,
-    followed by `os.walk`'s descent into what is left in `dirs` (`subs kept clock`) -/
+/-- one iteration of `for base, dirs, files in os.walk(…)` for the directory `rel` with entries `t`:
+    poll `top`, the folder loop, poll `mid`, the file loop; followed by `os.walk`'s descent into what
+    is left in `dirs` (`subs kept clock`) -/
 def dirBody {V} (o : Oracle) (cfg : Cfg) (hk : Hooks V) (rel : RelPath) (t : Tree) (c : Ctr)
     (subs : List Name → Ctr → Run V) : Run V :=
   if o c then ⟨[.poll .top true], true⟩
@@ -225,10 +230,16 @@ def dirBody {V} (o : Oracle) (cfg : Cfg) (hk : Hooks V) (rel : RelPath) (t : Tre
     let c1 := c.tick (.poll .top false : Ev V)
     let d := dirLoop o cfg hk rel (dirNames t) c1
     let c2 := advance c1 d.1
-    let f := fileLoop o cfg hk rel (fileNames t) c2
-    let c3 := advance c2 f
-    let s := subs d.2 c3
-    ⟨.poll .top false :: (d.1 ++ (f ++ s.evs)), s.stop⟩
+    -- wcmatch.py:280-282 (repair of D20): `if self.is_aborted(): break` after the folder loop — the
+    -- files of this directory are not looked at, and `os.walk` is not resumed (so what the interrupted
+    -- folder loop left in `dirs` is never descended into)
+    if o c2 then ⟨.poll .top false :: (d.1 ++ [.poll .mid true]), true⟩
+    else
+      let c2' := c2.tick (.poll .mid false : Ev V)
+      let f := fileLoop o cfg hk rel (fileNames t) c2'
+      let c3 := advance c2' f
+      let s := subs d.2 c3
+      ⟨.poll .top false :: (d.1 ++ (.poll .mid false :: (f ++ s.evs))), s.stop⟩
 
 /-- `os.walk` descends into a name iff it is still in `dirs` and (`followlinks` or not a link) -/
 def enters (cfg : Cfg) (kept : List Name) (n : Name) (k : Kind) : Bool :=
